@@ -73,14 +73,16 @@ Definition no_reverse_pair (v6 : bool) (o : oflows) : bool :=
   let ks := map (fun ko => unhex (fst ko)) o in
   forallb (fun k => let r := reverse_bytes (alen v6) k in
                     bytes_eqb r k || negb (existsb (bytes_eqb r) ks)) ks.
-(* one row per conversation in a written block: never sip/dip swapped for the same protocol
-   (the generator's conversations are between distinct host pairs) *)
-Definition swapped_rows (n : nat) (a b : list N) : bool :=
-  bytes_eqb (firstn n a) (firstn n (skipn n b)) && bytes_eqb (firstn n b) (firstn n (skipn n a))
-  && (nth (2 * n + 2) a 0 =? nth (2 * n + 2) b 0)%N.
+(* one row per conversation in a written block. Conversation identity = unordered pair of addresses +
+   protocol, independent of how the parser keyed the packets (the generator's conversations are between
+   pairwise distinct host pairs; client port variations only where all of them aggregate to one row) *)
+Definition same_conv (n : nat) (a b : list N) : bool :=
+  (nth (2 * n + 2) a 0 =? nth (2 * n + 2) b 0)%N
+  && ((bytes_eqb (firstn n a) (firstn n b) && bytes_eqb (firstn n (skipn n a)) (firstn n (skipn n b)))
+      || (bytes_eqb (firstn n a) (firstn n (skipn n b)) && bytes_eqb (firstn n b) (firstn n (skipn n a)))).
 Definition no_swapped_rows (v6 : bool) (o : oflows) : bool :=
   let ks := map (fun ko => unhex (fst ko)) o in
-  forallb (fun a => negb (existsb (swapped_rows (alen v6) a) ks)) ks.
+  forallb (fun a => (length (filter (same_conv (alen v6) a) ks) =? 1)%nat) ks.
 
 Definition row_active (ko : string * (N * N * N * N)) : bool :=
   let '(_, _, pr, ps) := snd ko in (0 <? pr)%N || (0 <? ps)%N.
